@@ -708,25 +708,39 @@ def _derive(rec):
                 rec.count('derive_wrt_parameter_absent_from_formula_not_explored')
                 continue
             formula = ('derive', f, name)
-            for pi, p in enumerate(PARAMS):
-                case = dict(part='derive', formula=fname, name=name, point=pi)
-                try:
-                    expr = R.Builder(spec).build(formula)
-                    got = [float(v) for v in expr.get_value_c(database=db, betas=dict(p), prepare_ids=True)]
-                except Exception as e:
-                    rec.case(('derive', fname, name, pi), type(e).__name__, outcome='raised')
-                    rec.violation(f'C10|raised-{type(e).__name__}|derive:{fname}:{"param" if name in p else "variable"}',
-                                  f'Derive({fname}, {name}): {str(e)[:200]}', case)
-                    rec.retire = True
-                    return
-                want = [R.evaluate(formula, row=row, params=p) for row in rows]
-                depends = name in R.leaves(f, 'beta') or name in R.leaves(f, 'var')
-                rec.case(('derive', fname, name, pi) if depends else None, (fname, name, pi, [round(v, 9) for v in got]),
-                         outcome=('derive', depends))
-                if any(abs(g - w) > 1e-9 + 1e-8 * max(abs(g), abs(w)) for g, w in zip(got, want)):
-                    fam = 'bioLinearUtility' if fname.startswith('linutil') else fname
-                    rec.violation(f'C10|derivative-value|derive:{fam}:{"param" if name in p else "variable"}',
-                                  f'Derive({fname}, {name}) point {pi}: {got} expected {want}', case, expected=want, observed=got)
+            # status of the parameters: all estimated; the one the derivative is taken with respect to (for a variable: the
+            # first one of the formula) not estimated - declared so, or fixed afterwards on the live expression (fix_betas);
+            # none estimated.  A parameter that is not estimated keeps its declared value (the dictionary names the others).
+            in_f = sorted(R.leaves(f, 'beta'))
+            target = name if name in PARAMS[0] else in_f[0]
+            for status in ('all-free', 'target-fixed', 'target-fixed-afterwards', 'all-fixed'):
+                fixed = set() if status == 'all-free' else ({target} if status.startswith('target') else set(PARAMS[0]))
+                spec_s = {nm: (v, None, None, 1 if (nm in fixed and status != 'target-fixed-afterwards') else 0)
+                          for nm, v in PARAMS[0].items()}
+                for pi, p in enumerate(PARAMS):
+                    p_eff = {nm: (PARAMS[0][nm] if nm in fixed else v) for nm, v in p.items()}
+                    stag = '' if status == 'all-free' else ':' + status
+                    case = dict(part='derive', formula=fname, name=name, point=pi, status=status)
+                    try:
+                        expr = R.Builder(spec_s).build(formula)
+                        if status == 'target-fixed-afterwards':
+                            expr.fix_betas({target: PARAMS[0][target]})
+                        got = [float(v) for v in expr.get_value_c(database=db, betas={nm: v for nm, v in p.items() if nm not in fixed},
+                                                                  prepare_ids=True)]
+                    except Exception as e:
+                        rec.case(('derive', fname, name, pi, status), type(e).__name__, outcome='raised')
+                        rec.violation(f'C10|raised-{type(e).__name__}|derive:{fname}:{"param" if name in p else "variable"}{stag}',
+                                      f'Derive({fname}, {name}) [{status}]: {str(e)[:200]}', case)
+                        rec.retire = True
+                        return
+                    want = [R.evaluate(formula, row=row, params=p_eff) for row in rows]
+                    depends = name in R.leaves(f, 'beta') or name in R.leaves(f, 'var')
+                    rec.case(('derive', fname, name, pi, status) if depends else None, (fname, name, pi, status, [round(v, 9) for v in got]),
+                             outcome=('derive', depends, status))
+                    if any(abs(g - w) > 1e-9 + 1e-8 * max(abs(g), abs(w)) for g, w in zip(got, want)):
+                        fam = 'bioLinearUtility' if fname.startswith('linutil') else fname
+                        rec.violation(f'C10|derivative-value|derive:{fam}:{"param" if name in p else "variable"}',
+                                      f'Derive({fname}, {name}) [{status}] point {pi}: {got} expected {want}', case, expected=want, observed=got)
     rec.sample(dict(part='derive', formulas=list(pool)))
 
 
